@@ -37,6 +37,8 @@ COND = {
     "frame.require_output_check": "outcheck",
     "self.has_known_extends": "known_ext",
     "len(macro_ref.node.args) == 1": "onearg",
+    "has_safe_repr(const)": "saferepr",
+    "isinstance(node.target, nodes.NSRef)": "nsref",
 }
 
 
@@ -173,34 +175,47 @@ def facts(src_root):
             raise Untranslatable("CodeGenerator." + n + " not found")
     f = {}
     # ---- output children
-    rows, balanced = [], True
+    rows, balanced, td_free = [], True, True
     for vol in B:
         for ae in B:
             kinds = set()
             for fin in B:
-                pre = run(cg["_output_child_pre"], vol=vol, ae=ae, fin=fin)
-                post = run(cg["_output_child_post"], fin=fin)
-                if any(e[0] not in ("w",) for e in pre + post):
-                    raise Untranslatable("_output_child_pre/post: unexpected event " + repr([e for e in pre + post if e[0] != "w"][:1]))
-                wp, wq = writes(pre), writes(post)
-                if not wp or wp[0] not in OW:
-                    raise Untranslatable("_output_child_pre emits " + repr(wp))
-                kinds.add(OW[wp[0]])
-                if wp[1:] != (["<finalize.src>"] if fin else []):
-                    raise Untranslatable("_output_child_pre finalize part " + repr(wp[1:]))
-                if wq != [")"] * (2 if fin else 1):
-                    balanced = False
+                for td in B:
+                    pre = run(cg["_output_child_pre"], vol=vol, ae=ae, fin=fin, tdata=td)
+                    post = run(cg["_output_child_post"], fin=fin, tdata=td)
+                    if any(e[0] not in ("w",) for e in pre + post):
+                        raise Untranslatable("_output_child_pre/post: unexpected event " + repr([e for e in pre + post if e[0] != "w"][:1]))
+                    wp, wq = writes(pre), writes(post)
+                    if not wp or wp[0] not in OW:
+                        raise Untranslatable("_output_child_pre emits " + repr(wp))
+                    kinds.add(OW[wp[0]])
+                    if wp[1:] not in ([], ["<finalize.src>"]):
+                        raise Untranslatable("_output_child_pre finalize part " + repr(wp[1:]))
+                    has_fin = wp[1:] == ["<finalize.src>"]
+                    if has_fin and not fin:
+                        raise Untranslatable("_output_child_pre writes finalize.src although it is None")
+                    if td and has_fin:
+                        td_free = False          # template data must never be finalized
+                    if not td and fin and not has_fin:
+                        raise Untranslatable("_output_child_pre drops finalize for a non-template-data child")
+                    if wq != [")"] * (2 if has_fin else 1):
+                        balanced = False
             if len(kinds) != 1:
-                raise Untranslatable("wrapper depends on finalize")
+                raise Untranslatable("wrapper depends on finalize / template data")
             rows.append((vol, ae, kinds.pop()))
-    f["out"], f["out_balanced"] = rows, balanced
+    f["out"], f["out_balanced"], f["tdata_no_finalize"] = rows, balanced, td_free
     # ---- constant folding of output children
     rows = []
     for vol in B:
         for ae in B:
             for td in B:
                 for envfin in B:
-                    evs = run(cg["_output_child_to_const"], vol=vol, ae=ae, tdata=td, envfin=envfin)
+                    # a constant whose repr is not safe to fold is left to the runtime (always allowed)
+                    unsafe = run(cg["_output_child_to_const"], vol=vol, ae=ae, tdata=td, envfin=envfin, saferepr=False)
+                    if unsafe[-1][0] != "raise" and any(e[0] == "ret" for e in unsafe):
+                        # no such guard in this version of the source: both runs are the same path
+                        pass
+                    evs = run(cg["_output_child_to_const"], vol=vol, ae=ae, tdata=td, envfin=envfin, saferepr=True)
                     if not evs or evs[0] != ("assign", "const", "node.as_const(frame.eval_ctx)"):
                         raise Untranslatable("_output_child_to_const does not start with as_const: " + repr(evs[:1]))
                     rest = evs[1:]
@@ -267,9 +282,13 @@ def facts(src_root):
                 rows.append((forced, vol, ae, k))
     f["retbuf"] = rows
     # ---- set block
-    for hasfilter in B:
-        evs = [e for e in run(cg["visit_AssignBlock"], hasfilter=hasfilter) if e[0] == "w" or (e[0] == "call" and e[1] == "visit_Filter")]
+    for hasfilter, nsref in [(x, y) for x in B for y in B]:
+        evs = [e for e in run(cg["visit_AssignBlock"], hasfilter=hasfilter, nsref=nsref) if e[0] == "w" or (e[0] == "call" and e[1] == "visit_Filter")]
         shape = [e[1] for e in evs]
+        starts = [i for i, x in enumerate(shape) if x.startswith(" = (")]
+        if len(starts) != 1:
+            raise Untranslatable("visit_AssignBlock: no single value wrapper " + repr(shape))
+        shape = shape[starts[0]:]          # what precedes is the target (and the namespace guard)
         if hasfilter:
             if shape == [" = (escape if context.eval_ctx.autoescape else identity)(", "visit_Filter", ")"]:
                 f["assign_filter"] = "AEscSel"
@@ -357,7 +376,7 @@ def emit(src_root):
     return ("From Coq Require Import List Bool.\nImport ListNotations.\n"
             "From JV Require Import Model.EscMarkup Model.EscLang2 Model.EscCodegen Proofs.EscCodegenProofs.\n"
             "Definition observed : facts := {|\n"
-            f"  f_out := {tbl(f['out'])};\n  f_out_balanced := {b(f['out_balanced'])};\n"
+            f"  f_out := {tbl(f['out'])};\n  f_out_balanced := {b(f['out_balanced'])};\n  f_tdata_no_finalize := {b(f['tdata_no_finalize'])};\n"
             f"  f_const := {tbl(f['const'])};\n  f_fblock := {tbl(f['fblock'])};\n  f_fbuf := {tbl(f['fbuf'])};\n"
             f"  f_retbuf := {tbl(f['retbuf'])};\n  f_assign_plain := {f['assign_plain']};\n  f_assign_filter := {f['assign_filter']};\n"
             f"  f_concat := {tbl(f['concat'])};\n  f_macro_forced := {b(f['macro_forced'])};\n"
